@@ -602,6 +602,21 @@ def bind(w: dict, ds: xarray.Dataset):
             look_alike.ems
         except Exception:
             pass
+    if w.get("decoy") and w["conv"] == "shoc_standard":
+        # ... and a SHOC standard file with RENAMED coordinate variables was handled by passing the names explicitly
+        try:
+            from emsarray.conventions.shoc import ShocStandard
+            renamed = ds.copy().rename({n: "r_" + n for pair in SHOC_STD_COORDS.values() for n in pair})
+            ShocStandard(renamed, coordinate_names={k: ("r_" + a, "r_" + b) for k, (a, b) in SHOC_STD_COORDS.items()})
+        except Exception:
+            pass
+    if w.get("bind") == "explicit" and w["conv"] in ("cf1d", "cf2d"):
+        # the convention object made by hand with the coordinate variables named explicitly, then bound
+        from emsarray.conventions.grid import CFGrid1D, CFGrid2D
+        nm = dict(DEFAULT_NAMES[w["conv"]]); nm.update(w.get("names") or {})
+        conv = (CFGrid1D if w["conv"] == "cf1d" else CFGrid2D)(ds, latitude=nm["lat"], longitude=nm["lon"])
+        conv.bind()
+        return conv
     if w["conv"] == "arakawa":
         from emsarray.conventions.arakawa_c import ArakawaC
         names = arakawa_coord_names(w)
